@@ -373,7 +373,7 @@ VERIFY_KINDS = [
     "other-key", "other-msg", "byte-edit",
     "pk-drop-zero", "pk-drop-zero", "pk-pad", "pk-pad", "pk-trunc",
     "sig-drop-s-zero", "sig-drop-s-zero", "sig-drop-r-zero", "sig-insert-zero", "sig-insert-zero", "sig-pad", "sig-trunc",
-    "both-lengths", "resplit", "resplit",
+    "both-lengths", "resplit", "resplit", "forge-x0",
 ]
 
 
@@ -496,6 +496,31 @@ def verify_cases(draw):
         how = draw(st.sampled_from(["drop-last", "drop-first", "r-only", "empty", "drop-byte-32"]))
         mut = "sig-trunc:" + how
         sig = {"drop-last": sig[:-1], "drop-first": sig[1:], "r-only": sig[:32], "empty": b"", "drop-byte-32": sig[:32] + sig[33:]}[how]
+    elif kind == "forge-x0":
+        # pk = 0 does not lift (7 is a non-residue), but the pseudo point T = (0, y), y = 7^((p+1)/4), has order 3 under the
+        # a = 0 addition formulas (doubling gives (0, -y)), so e*T depends only on e mod 3 and a "signature" can be ground
+        # without any secret: pick s, R = sG - e'T with even y, r = x(R), vary the message until H(r||pk||m) mod n mod 3 = e'.
+        # A verifier that skips the on-curve test for the lifted key accepts it; BIP340 requires rejection.
+        y0 = pow(7, (P + 1) // 4, P)
+        T = (0, y0)
+        mults = {0: None, 1: T, 2: (0, (-y0) % P)}
+        s_int = (k0 - 1) % (N - 1) + 1
+        sG = ec.mul(s_int, G)
+        pk = ref.b32(0)
+        base = None
+        found = False
+        for i in range(64):
+            m_i = msg + bytes([i])
+            for e1 in (0, 1, 2):
+                R = ec.add(sG, ec.neg(mults[e1])) if mults[e1] is not None else sG
+                if R is None or R[1] % 2:
+                    continue
+                if ref.challenge(R[0], 0, m_i) % 3 == e1:
+                    msg, sig, found = m_i, ref.b32(R[0]) + ref.b32(s_int), True
+                    break
+            if found:
+                break
+        mut = "forge-x0" if found else "forge-x0-not-found"
     elif kind == "resplit":
         # the same byte string pk || msg || sig cut at other places: lengths change together with the message
         if len(msg) < 2:
@@ -614,7 +639,7 @@ def targets(tier):
                 "ref:R-infinite", "ref:R-odd-y", "ref:Rx-ne-r",
                 "nt:sig-63-bytes-s-leading-zero", "nt:pk-31-bytes", "nt:pk-33-bytes", "nt:sig-65-bytes", "nt:sig-63-bytes",
                 "nt:pk-31-bytes-leading-zero-dropped", "nt:pk-33-bytes-zero-prepended", "nt:sig-65-bytes-zero-inserted-before-s",
-                "nt:mut:bitflip-pk", "nt:mut:bitflip-msg", "nt:mut:bitflip-r", "nt:mut:bitflip-s", "nt:mut:odd-R",
+                "nt:mut:forge-x0", "nt:mut:bitflip-pk", "nt:mut:bitflip-msg", "nt:mut:bitflip-r", "nt:mut:bitflip-s", "nt:mut:odd-R",
                 "nt:mut:neg-s", "nt:mut:other-key", "nt:valid-s-leading-zero", "nt:valid-r-leading-zero", "nt:valid-pk-leading-zero",
             ],
         ),
